@@ -282,6 +282,22 @@ Fixpoint wstarts (a : N) (n : nat) : list N :=
 Definition cache_after (s : state) (a b : N) : state :=
   fold_left cache_load (wstarts (aligned a) (S (N.to_nat ((aligned b - aligned a) / W)))) s.
 
+(* ---------- MatchedBlockIterator: the order in which block numbers are visited ----------
+   loadNextWindow walks the aligned windows: the first one from offset rangeStart mod W, every
+   following one (currentWindowStart + W) from offset 0, and stops when windowStart > rangeEnd;
+   Next stops at the first bit beyond rangeEnd. ws = start of the window, lo = first block of it that
+   is looked at. *)
+Fixpoint walk (fuel : nat) (ws lo to : N) : list N :=
+  match fuel with
+  | O => []
+  | S f =>
+      if to <? ws then []
+      else rangeN lo (N.min (ws + W - 1) to) ++ walk f (ws + W) (ws + W) to
+  end.
+
+Definition walk_blocks (from to : N) : list N :=
+  walk (S (N.to_nat (to / W))) (aligned from) from to.
+
 (* ---------- blockchain/event_matcher.go AppendBlockEventsFromTransactionEvents ----------
    l = events of the block from flat position pos on; room = chunkSize - len(matchedSoFar).
    Returns the events appended and Some p when the chunk is full and the event at flat position p
@@ -412,10 +428,52 @@ Definition do_query (s0 : state) (flt : efilter) (from to chunk limit : N) (tok 
         match running s with
         | Ready _ _ =>
             let bev := fun n => flat_block n (nthN n (chain s) []) in
-            let '(r, stop) := scanq (cand_item s flt) bev flt limit (rangeN start to') 0 skip chunk to' in
+            let '(r, stop) := scanq (cand_item s flt) bev flt limit (walk_blocks start to') 0 skip chunk to' in
             (cache_after s start stop,
              match r with Some (evs, t) => OPage evs t | None => OErr end)
         | _ => (s, OErr)
+        end
+  end.
+
+(* ---------- pre-confirmed tail (event_filter.go Events + preConfirmedEvents, event_matcher.go TestBloom) ----------
+   pre = the pre-confirmed blocks above the head, oldest first (numbers latest+1 ...). They are not part
+   of the node state: the caller hands them to the query. No scan limit applies to them; a block whose
+   own bloom rejects the filter is skipped and resets the skip counter. *)
+Fixpoint scanp (flt : efilter) (pre : list block) (n start to skip room : N) : list fev * (N * N) :=
+  match pre with
+  | [] => ([], (0, 0))
+  | b :: rest =>
+      if n <? start then scanp flt rest (N.succ n) start to skip room
+      else if to <? n then ([], (0, 0))
+      else if negb (cand_test (block_keys b) flt) then scanp flt rest (N.succ n) start to 0 room
+      else
+        match take flt (skipN skip (flat_block n b)) skip room with
+        | (t, Some p) => (t, (n, p))
+        | (t, None) =>
+            let (t', tok) := scanp flt rest (N.succ n) start to 0 (room - lenN t) in (t ++ t', tok)
+        end
+  end.
+
+Definition do_query_pre (s0 : state) (flt : efilter) (from to chunk limit : N) (tok : N * N)
+    (pre : list block) : state * out :=
+  match chain s0, pre with
+  | [], _ => (s0, OErr)
+  | _, [] => do_query s0 flt from to chunk limit tok
+  | _, _ =>
+      let latest := lenN (chain s0) - 1 in
+      if to <=? latest then do_query s0 flt from to chunk limit tok
+      else
+        let start := if tok_none tok then from else fst tok in
+        let skip := snd tok in
+        (* canonical part [start, latest] (empty when start > latest) *)
+        match do_query s0 flt from latest chunk limit tok with
+        | (s1, OPage evs t1) =>
+            if negb (tok_none t1) then (s1, OPage evs t1)
+            else
+              let skip' := if start <=? latest then 0 else skip in
+              let (evp, tp) := scanp flt pre (latest + 1) start to skip' (chunk - lenN evs) in
+              (s1, OPage (evs ++ evp) tp)
+        | r => r
         end
   end.
 
